@@ -177,6 +177,7 @@ def run(ctx):
             if ln.startswith('DIVERGE'):
                 ctx.tie_broken.append('correspondence (new_handler loop): ' + ln[:300])
     res = runner.run_cases(cases, rexe)
+    exec_cov = poolrun.exec_lockstep(ctx, res, rexe)
     ops = 0; div = 0; per = {}; throws = 0; nulls = 0; injected = 0
     for r in res:
         kind, tgt, c = r['case']['tag']; per[kind] = per.get(kind, 0) + 1
@@ -198,7 +199,7 @@ def run(ctx):
     ctx.tie_broken = ctx.tie_broken[:6]
     ctx.cov.update(dict(
         tie=dict(kind='logs replayed against the models with the k-th upstream call failing; exception class, handler invocation count, null/throw discipline and the state after every refused request are compared; histories continue after failures',
-                 configs=cfgs, histories_by_kind=per, histories=len(cases), operations=ops, exceptions_observed=throws, nulls_observed=nulls, upstream_failures_injected=injected, divergences=div),
+                 configs=cfgs, histories_by_kind=per, histories=len(cases), operations=ops, exec_pool=exec_cov, exceptions_observed=throws, nulls_observed=nulls, upstream_failures_injected=injected, divergences=div),
         evaluations=len(cases), distinct_nontrivial=len(set(c['script'] for c in cases)),
         rule='seeded histories with injected upstream failures, oversize and over-aligned requests, fixed sources driven to exhaustion through throwing and composable interfaces and used again after release; distinct = distinct scripts'))
     if res:
